@@ -135,7 +135,7 @@ def count_lines(path):
     return n
 
 
-def run_harness_supervised(args, out_path, profile="debug", timeout=1800, env=None, max_restarts=200):
+def run_harness_supervised(args, out_path, profile="debug", timeout=1800, env=None, max_restarts=40):
     """Worker protocol: the harness processes cases 0,1,2,... and writes exactly one line per case
     (flushed).  If the worker dies (signal) or hangs, the driver records an `abort` line for the case
     it died on and restarts it after that case (`--start k`).  Returns list of abort records."""
@@ -163,7 +163,10 @@ def run_harness_supervised(args, out_path, profile="debug", timeout=1800, env=No
         start = done + 1
         if rc not in ("timeout",) and not (isinstance(rc, int) and rc < 0) and rc != 134 and rc != 101:
             raise ToolError("harness failed rc=%s: %s" % (rc, err))
-    raise ToolError("too many worker restarts")
+    # a tree on which the worker keeps dying is reported with the deaths seen so far (each is a violation of its own);
+    # the remaining cases of this worker are not run
+    log("[cv] worker died %d times; remaining cases of this worker skipped" % len(aborts))
+    return aborts
 
 
 def run_harness_parallel(mode, cases, seed, nrand, trace, wd, profile="debug", extra=(), k=8, timeout=1800, env=None):
